@@ -224,6 +224,54 @@ def array_engine(ctx, m, cname, f, writer_calls):
             ctx.bad("R-16.3", W, f"{cname}.modify_velocities does not reset the momentum of the written velocities when zero_momentum is requested (reset missing, unguarded, after the write, or applied to another array)")
         # ---- R-16.4
         r164(ctx, cname, f, fl, cfg, vp, wn, W)
+        ctx.attempt(r1610, ctx, cname, f)
+
+
+def r1610(ctx, cname, f):
+    """The change in kinetic energy is a difference of like quantities: the old and the new kinetic
+    energy that are subtracted are computed by the same expression (same helper, same mass table,
+    same unit factor) - only the velocities differ."""
+    import copy as _copy
+    rid = "R-16.10"
+    fl = flow_of(f)
+    cfg = fl.cfg
+
+    class T(ast.NodeTransformer):
+        def visit_Call(self, c):
+            self.generic_visit(c)
+            if last_name(c) in ("kinetic_energy", "get_kinetic_energy") and c.args:
+                c.args[0] = ast.Name(id="V", ctx=ast.Load())
+            return c
+
+    def shape(nm, at):
+        """how the kinetic energy held in `nm` was computed, with the velocities abstracted"""
+        out = set()
+        for d, sfx in fl.rd(nm.id, at):
+            if sfx or d.value is None or not isinstance(d.value, ast.AST):
+                return None
+            if not any(isinstance(x, ast.Call) and last_name(x) in ("kinetic_energy", "get_kinetic_energy") for x in ast.walk(d.value)):
+                return None
+            txt = ast.unparse(T().visit(_copy.deepcopy(d.value))).replace(" ", "")
+            if d.kind == "unpack":
+                txt += "#" + ",".join(map(str, d.index))
+            elif txt.endswith("[0]"):
+                txt = txt[:-3] + "#0"
+            out.add(txt)
+        return "|".join(sorted(out)) if out else None
+
+    subs = [n for n in walk_local(f) if isinstance(n, ast.BinOp) and isinstance(n.op, ast.Sub) and isinstance(n.left, ast.Name) and isinstance(n.right, ast.Name)]
+    n_ok = 0
+    for st in subs:
+        at = cfg.node_of(st)
+        a_, b_ = shape(st.left, at), shape(st.right, at)
+        if a_ is None or b_ is None:
+            continue
+        n_ok += 1
+        if a_ == b_:
+            ctx.ok(rid, st, f"{cname}: old and new kinetic energy are computed alike ({a_})")
+        else:
+            ctx.bad(rid, st, f"{cname}.modify_velocities subtracts kinetic energies that are computed differently: `{st.left.id}` = `{a_}`, `{st.right.id}` = `{b_}` (V = the velocities): the reported change in kinetic energy mixes two units / mass tables, so it is neither the change nor consistent with the reported new kinetic energy", construct=f"{cname}: {st.left.id} - {st.right.id} = {a_} - {b_}")
+    return n_ok
 
 
 def r164(ctx, cname, f, fl, cfg, vp, wn, W):
@@ -537,6 +585,7 @@ def run(ctx):
     ctx.rule("R-16.8", "variance clause, symbolically: normal(0, sigma) with sigma^2*beta*mass == 1; beta*kB*T == 1 per engine; kB in the engine's energy unit; no rescaling between draw and writer except the engine's unit factor", floor=14)
     ctx.rule("R-16.7", "the frame index of the configuration that is dumped before velocity regeneration is tested with `is None`, never by truthiness (index 0 is a frame)", floor=5)
     ctx.rule("R-16.6", "positional role agreement in velocity regeneration: (dek, kin_new), (vel, sigma_v), (xyz, vel, box, names) and writer arguments sit where the callee returns / expects them", floor=8)
+    ctx.rule("R-16.10", "the kinetic energies whose difference is reported are computed by the same expression before and after the regeneration (same unit, same mass table)", floor=3)
     ctx.rule("R-16.9", "a callee handed an ensemble dictionary looks up only keys that record has (velocity settings such as zero_momentum live in its tis_set; a .get() on the ensemble itself silently yields the default)", floor=8)
     from .shared import ensemble_record_agreement
     ctx.attempt(ensemble_record_agreement, ctx, "R-16.9", [TIS], None, ": zero_momentum = true is ignored by engines whose default is false (net momentum kept), zero_momentum = false by those whose default is true")
@@ -573,6 +622,7 @@ def run(ctx):
 
 
 VARIANTS = [
+    B("c16-lammps-new-kinetic-energy-rescaled", LAMMPS, "        kin_new = kinetic_energy(vel, mass)[0]\n        system.config = (conf_out, 0)", "        kin_new = kinetic_energy(vel, mass)[0] * scale**2\n        system.config = (conf_out, 0)", "R-16.10", control=True, why="seeded C16_h"),
     B("c16-lammps-reset-result-discarded", LAMMPS, "        if vel_settings.get(\"zero_momentum\", False):\n            vel = reset_momentum(vel, mass)\n\n        conf_out = os.path.join(self.exe_dir, f\"genvel.{self.ext}\")\n        write_lammpstrj", "        if vel_settings.get(\"zero_momentum\", False):\n            reset_momentum(vel, mass)\n\n        conf_out = os.path.join(self.exe_dir, f\"genvel.{self.ext}\")\n        write_lammpstrj", "R-16.3",
       also=[(CP2K, "    mom = np.sum(vel * mass, axis=0)\n    vel -= mom / mass.sum()\n    return vel", "    vel_com = np.sum(vel * mass, axis=0) / mass.sum()\n    return vel - vel_com")], why="seeded C16_g (two sites)"),
     K("c16-keep-lammps-reset-in-place-call", LAMMPS, "        if vel_settings.get(\"zero_momentum\", False):\n            vel = reset_momentum(vel, mass)\n\n        conf_out = os.path.join(self.exe_dir, f\"genvel.{self.ext}\")\n        write_lammpstrj", "        if vel_settings.get(\"zero_momentum\", False):\n            reset_momentum(vel, mass)\n\n        conf_out = os.path.join(self.exe_dir, f\"genvel.{self.ext}\")\n        write_lammpstrj", why="with the in-place helper of today the bare call is enough"),
